@@ -177,6 +177,36 @@ def gen_onact(rng, n):
     return out
 
 
+def gen_deferred(rng, n):
+    """(a) the application sends a deferred response on the connection handle it kept, at any moment -- also after STOPDT act was received
+    and STOPDT con is still pending (transmitted events unacknowledged): no I-format APDU then; (b) the server's own TESTFR act (t3) is
+    outstanding when the peer's TESTFR act arrives: it is confirmed all the same"""
+    out = []
+    for i in range(n):
+        k = rng.choice([1, 3, 12])
+        lines = header(k, 8, 0)
+        cnt = dict(p=0, e=0)
+        seq = []
+        if i % 2 == 0:
+            for name in ["startdt"] + [rng.choice(["enq", "enq", "s_partial", "i_good"]) for _ in range(rng.range(1, 4))] + ["stopdt"]:
+                seq.append(name); lines += stim_lines(name, 0, cnt)
+            lines += ["appsend c0", "tick", "appsend c0", "tick"]
+            seq.append("appsend")
+            for name in [rng.choice(["s_good", "startdt", "enq"]) for _ in range(rng.range(0, 3))]:
+                seq.append(name); lines += stim_lines(name, 0, cnt)
+            lines += ["appsend c0", "tick"]
+        else:
+            for name in ["startdt"] if rng.chance(1, 2) else []:
+                seq.append(name); lines += stim_lines(name, 0, cnt)
+            lines += ["adv 20001", "tick"]            # t3 = 20 s: the server sends TESTFR act
+            seq.append("t3")
+            for name in ["testfr_act"] + [rng.choice(["testfr_con", "testfr_act", "enq"]) for _ in range(rng.range(0, 3))]:
+                seq.append(name); lines += stim_lines(name, 0, cnt)
+        lines.append("tick 2")
+        out.append(("f%d" % i, lines, ("deferred",) + tuple(seq)))
+    return out
+
+
 def gen_random(rng, n, length):
     out = []
     for i in range(n):
@@ -357,8 +387,9 @@ def run(ck):
     scripts = gen_directed() + gen_exhaustive(depth, rng, limit) + gen_random(rng, 150 if quick else 3000, 60)
     multi = gen_multi(rng, 60 if quick else 1500)       # the extracted model follows one connection slot: oracle only for these
     onact = gen_onact(rng, 30 if quick else 600)
-    nomodel = {sid for sid, _, _ in multi} | {sid for sid, _, _ in onact}
-    scripts += multi + onact
+    deferred = gen_deferred(rng, 30 if quick else 600)
+    nomodel = {sid for sid, _, _ in multi} | {sid for sid, _, _ in onact} | {sid for sid, _, _ in deferred}
+    scripts += multi + onact + deferred
     ck.count("scripts", len(scripts))
     rc = runner.run_batch(h, [(sid, l) for sid, l, _ in scripts], timeout=3600)
     rm = runner.run_batch(m, [(sid, l) for sid, l, _ in scripts], timeout=3600) if m else {}
